@@ -579,8 +579,10 @@ def noise(g, ir, ks):
                 bi = bis[k % len(bis)]
                 b = g.DataBlock(uuid=u, size=1, byte_interval=bi)
                 bi.blocks.discard(b)
-                bi.symbolic_expressions[1 << 60] = g.SymAddrConst(0, g.Symbol("x"))
-                del bi.symbolic_expressions[1 << 60]
+                # an offset nothing is stored at (the history must have no net effect)
+                free = next(o for o in ((1 << 60) + j for j in range(1 << 20)) if o not in bi.symbolic_expressions)
+                bi.symbolic_expressions[free] = g.SymAddrConst(0, g.Symbol("x"))
+                del bi.symbolic_expressions[free]
 
 
 def inplace_history(g, case, res, A, dA, L, dL):
